@@ -37,8 +37,21 @@ def extract_result(deferred):
     """
     failures: List["Failure"] = []
     successes: List["Deferred"] = []
-    deferred.addCallbacks(successes.append, failures.append)
+
+    # Observe passively: hand the result on unchanged, so that a Deferred that
+    # has not fired yet (or fired with a value) is left as it was for whoever
+    # looks at it next.
+    def capture(value, values):
+        values.append(value)
+        return value
+
+    deferred.addCallbacks(
+        partial(capture, values=successes),
+        partial(capture, values=failures),
+    )
     if len(failures) == 1:
+        # We are about to raise it: it has been handled.
+        deferred.addErrback(lambda _: None)
         failures[0].raiseException()
     elif len(successes) == 1:
         return successes[0]
